@@ -1,7 +1,7 @@
 """C10 - one conversation at a time per device, and login comes first (DESIGN §5 C10), device layer: see props/C07.py"""
 import json, C07
 def run(ctx, V):
-    C07.run_devlayer(ctx, V, ("login", "fifo", "count", "fd"), 260, 6000, ["alive", "c10", "wedge"], ("mixed", "faults"), 300,
-                     "C10: per device the queue of client ids only loses a prefix (completed in that order) and gains a suffix; connected-and-not-logged-in <=> login is the head.")
+    C07.run_devlayer(ctx, V, ("login", "fifo", "count", "fd", "live"), 260, 6000, ["alive", "c10", "wedge"], ("mixed", "faults"), 300,
+                     "C10: per device the queue of client ids only loses a prefix (completed in that order) and gains a suffix; connected-and-not-logged-in <=> login is the head; telemetry / diagnostic callbacks only for clients completed later in the same pass or still queued (C10_callbacks_live).")
 def replay(ctx, V, path):
     print(json.dumps(json.load(open(path)), indent=1)[:6000]); return 0
